@@ -46,7 +46,7 @@ instance : LawfulMonad Res := LawfulMonad.mk'
   (pure_bind := fun _ _ => rfl)
   (bind_assoc := fun x _ _ => by cases x <;> rfl)
 
-/-- `x` finished normally with a value satisfying `p` -/
+/-- `x` finished normally (no panic, fuel not exhausted) -/
 def IsOk {α : Type} (x : Res α) : Prop := ∃ a, x = ok a
 
 theorem bind_eq_ok {α β : Type} {x : Res α} {f : α → Res β} {b : β} :
@@ -59,9 +59,6 @@ theorem bind_eq_ok {α β : Type} {x : Res α} {f : α → Res β} {b : β} :
 end Res
 
 open Res
-
-/-- `2^w` -/
-def pow2 (w : Nat) : Nat := 2 ^ w
 
 /-- `a + b` on a `w`-bit unsigned type (overflow panics) -/
 def add (w a b : Nat) : Res Nat := if a + b < 2 ^ w then ok (a + b) else panic
